@@ -258,3 +258,10 @@ Arguments locked {St} w.
 Arguments txns {St} w.
 Arguments init {St} s.
 Arguments is_panic {wout rout} o.
+Arguments run {St wop wout rop rout} wapply wfail rread ro_out l w.
+Arguments step_run {St wop wout rop rout} wapply wfail rread ro_out x w.
+Arguments bstep_run {St wop wout rop rout} wapply wfail rread ro_out x w.
+Arguments run_bsteps {St wop wout rop rout} wapply wfail rread ro_out l w.
+Arguments run_body {St wop wout rop rout} wapply wfail rread ro_out b w.
+Arguments managed {St wop wout rop rout} wapply wfail rread ro_out wr b e w.
+Arguments wfold {St wop wout} wapply s os.
